@@ -189,6 +189,7 @@ C15_RefundOnClose == Step /\ IsOk("close") =>
   /\ LET p == props[Pid] IN
      IF p.dep.kind # "none" /\ p.dep.refund
      THEN /\ held[Pid] = 1
+          /\ ~PassedNow(p, now') \/ KF3q(Pid)         \* returned as "failed" only if the proposal did fail
           /\ bal' = Move(bal, "ms", p.proposer, p.dep.amt)
           /\ DepositMsgs(out') = <<RefundMsg(p.proposer, p.dep.amt)>>
      ELSE bal' = bal /\ DepositMsgs(out') = <<>>
